@@ -23,7 +23,14 @@ import (
 	"verif/sim/scen"
 )
 
-const verifDir = "/verif"
+// verifDir is /verif; VERIF_DIR overrides it for background experiments that run from a
+// snapshot of /verif (never used by the commands registered in MANIFEST.json).
+var verifDir = func() string {
+	if v := os.Getenv("VERIF_DIR"); v != "" {
+		return v
+	}
+	return "/verif"
+}()
 
 // repoDir is /repo; VERIF_REPO overrides it for experiments on scratch
 // worktrees (never used by the commands registered in MANIFEST.json).
@@ -494,7 +501,11 @@ func cmdReplay(path string) int {
 	if err != nil {
 		return fatal2("%v", err)
 	}
-	defer os.RemoveAll(scratch)
+	if os.Getenv("VERIF_KEEP") == "" {
+		defer os.RemoveAll(scratch)
+	} else {
+		fmt.Println("scratch kept:", scratch)
+	}
 	race := false
 	for _, l := range rf.World.Lifetimes {
 		if l.Race {
@@ -507,9 +518,24 @@ func cmdReplay(path string) int {
 	}
 	kf := loadKnown()
 	env := &check.Env{Bins: &world.Bins{Bin: bres.Bin, RaceBin: bres.RaceBin, Sources: bres.Sources}, Base: scratch, Known: kf.classifyAny}
+	env.Keep = os.Getenv("VERIF_KEEP") != "" // debugging: keep the world root below the scratch directory
 	out := check.RunWorld(env, rf.World)
 	if out.Infra != "" {
 		return fatal2("%s", out.Infra)
+	}
+	if os.Getenv("VERIF_TRACE") != "" {
+		for _, t := range out.Stats.Trace {
+			fmt.Println("TRACE", t)
+		}
+		for _, cv := range out.Cross {
+			fmt.Printf("CROSS %v %s: %s\n", cv.Props, cv.Oracle, oneLine(cv.Msg))
+		}
+		for _, cv := range out.Known {
+			fmt.Printf("KNOWN(%s) %v %s: %s\n", cv.Known, cv.Props, cv.Oracle, oneLine(cv.Msg))
+		}
+		for k, v := range out.Stats.Probes {
+			fmt.Printf("PROBE %s=%d\n", k, v)
+		}
 	}
 	for _, kv := range out.Known {
 		if kv.Has(rf.Property) && kf.lists(kv.Known, rf.Property) {
